@@ -1,1 +1,20 @@
+-- Library root: every property module (so that `lake build GrafeoModel` checks all proofs).
+-- `Generated/*.lean` are regenerated from /repo by tools/extract.py and tools/extract_locks.py.
+import GrafeoModel.Props.C01
+import GrafeoModel.Props.C03
+import GrafeoModel.Props.C04
+import GrafeoModel.Props.C05
+import GrafeoModel.Props.C06
+import GrafeoModel.Props.C08Perm
+import GrafeoModel.Props.C09
+import GrafeoModel.Props.C10
+import GrafeoModel.Props.C11
+import GrafeoModel.Props.C12
+import GrafeoModel.Props.C13
+import GrafeoModel.Props.C14
 import GrafeoModel.Props.C15
+import GrafeoModel.Props.C16
+import GrafeoModel.Props.C17
+import GrafeoModel.Props.C18
+import GrafeoModel.Props.C19
+import GrafeoModel.Props.C20
